@@ -100,6 +100,39 @@ package keeper
 //@   ensures[C05.cuv.spec]   !isnil(result) && val(result) == tdiv(val(assetAmount) * val(price) * P18, pow10(assetDecimal + priceDecimal))
 //@   ensures[C05.cuv.nonneg] val(assetAmount) >= 0 && val(price) >= 0 && assetDecimal + priceDecimal <= 40 ==> val(result) >= 0
 
+// C05: per operator of an AVS: total = USD value of all assets, self = USD value of the operator's own share,
+// active (the value that becomes voting power) = total iff self >= the AVS minimum self delegation, else 0;
+// the AVS-wide voting power grows by exactly the active value.
+//@ func (*Keeper).CalculateUSDValueForOperator
+//@   flag assumed
+//@   ensures err == nil ==> !isnil(r0.Staking) && !isnil(r0.SelfStaking) && !isnil(r0.StakingAndWaitUnbonding)
+
+// per asset of the operator (voting-power branch): total grows by the USD value of the whole pool, self by the
+// USD value of the tokens the operator's own shares are worth; an asset without a price or decimals is an error
+//@ define usdv(a, p, d, pd) = tdiv(a * p * P18, pow10(d + pd))
+//@ define selfTokens(st) = ite(val(st.TotalShare) == 0, 0, tokens_from_shares(val(st.OperatorShare), val(st.TotalShare), val(st.TotalAmount)))
+//@ func (*Keeper).CalculateUSDValueForOperator$1
+//@   requires state != nil && !isnil(ret.Staking) && !isnil(ret.SelfStaking) && !isnil(ret.StakingAndWaitUnbonding)
+//@   requires !isnil(state.TotalAmount) && !isnil(state.TotalShare) && !isnil(state.OperatorShare) && !isnil(state.PendingUndelegationAmount)
+//@   requires forallb(a, has(prices, a) ==> !isnil(prices[a].Value))
+//@   ensures[C05.cuvo.need]  err == nil && !isForSlash ==> has(prices, assetID) && has(decimals, assetID)
+//@   ensures[C05.cuvo.total] err == nil && !isForSlash ==> val(final_ret.Staking) == val(ret.Staking) +
+//@        usdv(val(state.TotalAmount), val(prices[assetID].Value), decimals[assetID], prices[assetID].Decimal)
+//@   ensures[C05.cuvo.self]  err == nil && !isForSlash ==> val(final_ret.SelfStaking) == val(ret.SelfStaking) +
+//@        usdv(val(res_TokensFromShares_0), val(prices[assetID].Value), decimals[assetID], prices[assetID].Decimal)
+//@   ensures[C05.cuvo.selfamt] err == nil && !isForSlash ==> val(res_TokensFromShares_0) == selfTokens(state)
+//@   ensures[C05.cuvo.other] err == nil && !isForSlash ==> final_ret.StakingAndWaitUnbonding == ret.StakingAndWaitUnbonding
+
+//@ define uvpActive(s, min) = ite(val(s.SelfStaking) >= val(min), val(s.Staking), 0)
+//@ func (*Keeper).UpdateVotingPower$1
+//@   requires optedUSDValues != nil && !isnil(minimumSelfDelegation) && !isnil(avsVotingPower)
+//@   modifies *optedUSDValues
+//@   ensures[C05.uvp.values] err == nil ==> val(optedUSDValues.TotalUSDValue) == val(res_CalculateUSDValueForOperator_0.Staking) &&
+//@        val(optedUSDValues.SelfUSDValue) == val(res_CalculateUSDValueForOperator_0.SelfStaking)
+//@   ensures[C05.uvp.active] err == nil ==> val(optedUSDValues.ActiveUSDValue) == uvpActive(res_CalculateUSDValueForOperator_0, minimumSelfDelegation)
+//@   ensures[C05.uvp.avs]    err == nil ==> val(final_avsVotingPower) == val(avsVotingPower) + uvpActive(res_CalculateUSDValueForOperator_0, minimumSelfDelegation)
+//@   ensures[C05.uvp.err]    err != nil ==> final_avsVotingPower == avsVotingPower
+
 // ---------------------------------------------------------------------------------------------
 // C07: a key is written for an operator only if no operator (including this one) currently holds its
 // consensus address, the operator is not removing its key, and the previous key is recorded at most once per epoch
